@@ -19,7 +19,12 @@ META = {
             'well-formed event list of length <=5 over 7 versions x 3 ecosystems, lists with a shared version in all their listing orders (thorough), or a seeded '
             'sample (quick) of untied lists, tied lists (single-version intervals, adjacent intervals, closing event listed first, different spellings of the tied '
             'version, >12 events, queries at / just below / just above the tied version), near-ties and arbitrary ill-formed lists; each implementation answer on a '
-            'well-formed record is compared with the specification.',
+            'well-formed record is compared with the specification. SECOND ENTRY POINT (match.go): remediation.MatchVuln takes, for the vulnerable package of each '
+            'subgraph, the severities of the first affected[] entry that IsAffected accepts as a one-entry record; the Lean model of MatchVuln (ids/aliases, dev-only, '
+            'selection, score threshold with rounding, depth) is proved to select by the OSV rule on well-formed records (C18_match_select, _first, _none, C18_matchvuln), '
+            'never to select an entry of another package/ecosystem (C18_match_other), and is tied to the real MatchVuln on generated records whose entries carry their '
+            'own severities (answer at the case threshold and at 8 profile thresholds, so the selected score is observable). vulns.VKToPackage and its mock extractor '
+            '(ecosystem, PURL, stub methods) are modelled and compared on a fixed table of names x 4 systems.',
     'note': 'Trusted: Lean kernel; axioms propext/Quot.sound/Classical.choice at most; deps.dev semver.Compare is a total order agreeing with the rank tables '
             '(checked at generator start-up); slices.SortFunc / BinarySearchFunc by contract (any correct sort: the comparator is total on distinct events); the Go harness and line protocol. '
             'The model is the code after the repair of the tie defect (events on one version were left in listing order and only the first was looked at: '
@@ -29,7 +34,30 @@ THEOREMS = ['Scalibr.Vulns.C18_decl', 'Scalibr.Vulns.C18_range', 'Scalibr.Vulns.
             'Scalibr.Vulns.C18_listing_order_decision', 'Scalibr.Vulns.C18_record', 'Scalibr.Vulns.C18_range_cmp', 'Scalibr.Vulns.C18_decl_cmp',
             'Scalibr.Vulns.C18_range_decl_cmp', 'Scalibr.Vulns.C18_range_type', 'Scalibr.Vulns.C18_other', 'Scalibr.Vulns.C18_unknown_ecosystem',
             'Scalibr.Vulns.C18_sort_pre', 'Scalibr.Vulns.C18_wf_tie_shapes', 'Scalibr.Vulns.C18_old_closing_listed_first',
-            'Scalibr.Vulns.C18_old_adjacent_intervals', 'Scalibr.Vulns.C18_illformed_differs', 'Scalibr.Vulns.specAffectedB_iff']
+            'Scalibr.Vulns.C18_old_adjacent_intervals', 'Scalibr.Vulns.C18_illformed_differs', 'Scalibr.Vulns.specAffectedB_iff',
+            'Scalibr.Vulns.C18_match_entry', 'Scalibr.Vulns.C18_match_select', 'Scalibr.Vulns.C18_match_select_first', 'Scalibr.Vulns.C18_match_select_none',
+            'Scalibr.Vulns.C18_match_other', 'Scalibr.Vulns.C18_matchvuln', 'Scalibr.Vulns.C18_match_toplevel']
+
+ECO = {'0': 'npm', '1': 'Maven', '2': 'PyPI', '3': ''}
+PURL_TYPE = {'0': 'npm', '1': 'maven', '2': 'pypi'}
+
+
+def _hex(s):
+    return s.encode().hex() if s else '-'
+
+
+def _vk_expected(case):
+    """what VKToPackage + mock extractor must yield, computed here from the case alone (independent of the Lean model)"""
+    _, sys_, name, ver = case.split(' ')
+    nm = bytes.fromhex(name).decode() if name != '-' else ''
+    if sys_ in PURL_TYPE:
+        ns, n = ('', nm)
+        if sys_ == '1':
+            ns, _, n = nm.partition(':')
+        purl = '%s|%s|%s|%s' % (PURL_TYPE[sys_], _hex(ns), _hex(n), ver)
+    else:
+        purl = 'nil'
+    return {'eco': _hex(ECO[sys_]), 'name': name, 'ver': ver, 'purl': purl, 'stubs': '-|nil|0'}
 
 
 def _ranges(case):
@@ -45,7 +73,11 @@ def run(ctx):
     ctx.trusted = ['Lean 4.33.0 kernel', 'axioms: propext, Quot.sound (see theorems.*.axioms)', 'deps.dev semver.Compare orders the rank tables (asserted at generator start)',
                    'slices.SortFunc/BinarySearchFunc contracts (SortFunc: any correct sort — the comparator separates distinct events, C18_sort_pre)',
                    'harness/cmd/c18gen + lean/Drivers/C18.lean line protocol', 'Lean compiler for the driver executable']
-    ctx.assumptions = ['versions are modelled as ranks in a linear order; "0" is rank 0 and only ever an introduced version; the queried version is never the literal "0"',
+    ctx.trusted += ['severity table of c18gen = sevScore of Drivers/C18.lean (asserted against severity.CalculateScore at generator start)',
+                    'math.Round(10*(h/100)) = (h+5) div 10 for thresholds h <= 1100 (asserted at generator start)']
+    ctx.assumptions = ['MatchVuln: the id/alias, dev-only, threshold and depth parts are stated as the code computes them (definitional; they carry the selection to the answer); '
+                       'the claim of C18 there is the selection of the affected[] entry by the OSV rule',
+                       'versions are modelled as ranks in a linear order; "0" is rank 0 and only ever an introduced version; the queried version is never the literal "0"',
                        'event lists with limit events or several fields set are outside the model',
                        'well-formed = ordered by (version, kind: fixed < introduced < last_affected) the events alternate introduced / fixed|last_affected from introduced, '
                        'strictly increasing in that order; events sharing a version that cannot be ordered so ({introduced X, fixed X} alone, fixed X + last_affected X, '
@@ -55,19 +87,35 @@ def run(ctx):
                 '(adjacent / single-version intervals of 2-6 or 13-24 events in natural, reversed, group-reversed, closings-first or shuffled order, tied events spelled '
                 'differently, query within 1 of a tied rank, 1/6 near-ties), the rest 50% untied well-formed shuffled lists, 20% tied lists, 30% arbitrary lists. '
                 'non-trivial = some range has >=2 events and the record is for the queried package; distinct = distinct case lines')
-    ok, _ = ctx.lean_build(['Scalibr.Properties.C18', 'drv_c18'])
-    proofs_ok = ctx.audit(['Scalibr.Properties.C18'], THEOREMS)
+    ctx.rule += ('; every 4th random case is followed by a match case (1-3 subgraphs of one package, 1-3 affected entries that mostly split its versions into branches '
+                 'with 0-2 severities each from an 11-entry table incl. unparsable/empty ones, some entries for other packages/ecosystems, tied and ill-formed ranges, '
+                 'threshold on / 0.04-0.1 around a score in play, ignore ids, dev-only, depth); 44 vkpkg cases (11 names x 4 systems)')
+    ok, _ = ctx.lean_build(['Scalibr.Properties.C18', 'Scalibr.Properties.C18Match', 'drv_c18'])
+    proofs_ok = ctx.audit(['Scalibr.Properties.C18', 'Scalibr.Properties.C18Match'], THEOREMS)
     if ctx.tier == 'thorough':
         proofs_ok = ctx.leanchecker('Scalibr.Properties.C18') and proofs_ok
+        proofs_ok = ctx.leanchecker('Scalibr.Properties.C18Match') and proofs_ok
     n = {'quick': 20000, 'thorough': 200000}[ctx.tier]
     if ctx.fingerprints(['guidedremediation/internal/vulns/vulns.go:IsAffected,VKToPackage']):
         n *= 4
 
     def nontrivial(case, fi, fm):
         t = case.split(' ')
+        if t[0] == 'vkpkg':
+            return True
         return any(x.count(':') >= 2 for x in t[5:])
 
     def oracle(case, fi, fm):
+        if case.startswith('vkpkg '):
+            want = _vk_expected(case)
+            bad = [k for k in want if fi.get(k) != want[k]]
+            return ('VKToPackage / mock extractor: %s is %s, expected %s' % (bad[0], fi.get(bad[0], fi.get('_')), want[bad[0]])) if bad else None
+        if case.startswith('match '):
+            got = '%s:%s' % (fi.get('match', fi.get('_')), fi.get('prof'))
+            if fm.get('wf') == '1' and 'spec' in fm and got != fm['spec']:
+                return ('MatchVuln answered %s (case threshold : profile thresholds); with each subgraph\'s affected[] entry selected by the OSV rule (ids, dev-only, threshold, depth as documented) it is %s'
+                        % (got, fm['spec']))
+            return None
         # the spec (the order-free OSV sentence, computed by the Lean driver from the case) judged against the IMPLEMENTATION's answer
         if fm.get('wf') == '1' and 'spec' in fm and fi.get('aff') != fm.get('spec'):
             return 'IsAffected returned %s, the OSV rule for this well-formed record says %s%s' % (
@@ -75,6 +123,11 @@ def run(ctx):
         return None
 
     def classify(case, fi, fm):
+        if case.startswith('vkpkg '):
+            return 'vkpkg sys=' + case.split(' ')[1]
+        if case.startswith('match '):
+            t = case.split(' ')
+            return 'match wf=%s top=%s m=%s prof=%s' % (fm.get('wf'), '0' if t[8] == '-' else '1', fi.get('match', fi.get('_')), (fi.get('prof') or '').count('1'))
         cls = 'wf=%s aff=%s' % (fm.get('wf'), fi.get('aff', fi.get('_')))
         if fm.get('tie') == '1':
             q = int(case.split(' ')[3]) % 100
@@ -90,6 +143,6 @@ def run(ctx):
         return cls
 
     lib.standard_stream(ctx, gen='c18gen', driver='drv_c18', gen_args=['-seed', str(ctx.seed), '-n', str(n), '-tier', ctx.tier],
-                        compare_keys=['aff'], nontrivial=nontrivial, oracle=oracle, classify=classify)
+                        compare_keys=['aff', 'match', 'prof', 'eco', 'name', 'ver', 'purl', 'stubs'], nontrivial=nontrivial, oracle=oracle, classify=classify)
     if not proofs_ok:
         lib.proof_failed(ctx, 'Scalibr.Properties.C18')
